@@ -54,6 +54,30 @@ def fam_F4():
     return P
 
 
+def frame_probes(c, fallback):
+    """call/exit findings that depend on per-function frame sizes: native interpreter vs the reference machine on probe
+    programs with a stack-usage calculator that gives caller and callee different sizes"""
+    import ref
+    from driver import Driver
+    d = Driver.get('dev' if c.get('profile', 'dev') == 'dev' else 'release')
+    probes = [
+        ('frame-distance', insn(0xbf, 6, 10) + insn(0x85, 0, 1, 0, 3) + insn(0x1f, 6, 0) + insn(0xbf, 0, 6) + insn(0x95) + insn(0xbf, 0, 10) + insn(0x95), [[0, 48], [5, 16]]),
+        ('caller-slot-survives', insn(0xb7, 2, 0, 0, 0x1111) + insn(0x7b, 10, 2, -24) + insn(0x85, 0, 1, 0, 2) + insn(0x79, 0, 10, -24) + insn(0x95) + insn(0xb7, 3, 0, 0, 0x2222) + insn(0x7b, 10, 3, -8) + insn(0x95), [[0, 48], [5, 16]]),
+        ('nested', insn(0xbf, 6, 10) + insn(0x85, 0, 1, 0, 3) + insn(0x1f, 6, 0) + insn(0xbf, 0, 6) + insn(0x95) + insn(0xbf, 7, 10) + insn(0x85, 0, 1, 0, 3) + insn(0x1f, 7, 0) + insn(0x67, 7, 0, 0, 16) + insn(0x4f, 0, 7) + insn(0x95) + insn(0xbf, 0, 10) + insn(0x95), [[0, 64], [5, 32], [11, 8]]),
+    ]
+    for name, prog, usage in probes:
+        ok, why = ref.wf(prog)
+        if not ok: continue
+        nat = d.run(prog, vm='mbuff', mem=bytes(16), mbuff=bytes(16), engine='interp', stack_usage=usage)
+        R = ref.Regions(bytes(16), nat.get('mem_addr', 0x1000), bytes(16), nat.get('mbuff_addr', 0x2000))
+        rf = ref.run(prog, R, stack_usage=[tuple(u) for u in usage])
+        # the probes return differences of frame pointers, never raw addresses
+        if nat.get('status') != rf.get('status') or (nat.get('status') == 'ok' and nat.get('value') != rf.get('value')):
+            c['replay'] = dict(probe=name, prog=prog.hex(), stack_usage=usage, native={k: v for k, v in nat.items() if k in ('status', 'value', 'msg')}, reference={k: v for k, v in rf.items() if k in ('status', 'value', 'reason')})
+            return True, f'probe {name} with frame sizes {usage}: native {nat.get("status")} {nat.get("value")}, reference {rf.get("status")} {rf.get("value")}'
+    return fallback
+
+
 def run():
     rep = Report('C07', 'model_checking', '5/C07')
     t = common.tier(); nranges = 1; timeout = 20000 if t == 'quick' else 120000
@@ -80,7 +104,9 @@ def run():
     rep.bounds = dict(depth='0..8 (symbolic)', displacement='all 32-bit', frame_sizes='all u16', jit_family='7 call-graph shapes (depth <= 3, forward/backward, recursion by counter)')
     def rp(c):
         if c.get('whole'): return jitwhole.replay(c)
-        return replaylib.replay_interp(c)
+        r = replaylib.replay_interp(c)
+        if r[0]: return r
+        return frame_probes(c, r)
     return rep.finish(cands, rp)
 
 
